@@ -54,5 +54,5 @@ def generate(rng, tier):
     return cases
 
 LEVEL_TEXT = ('Kernel-checked theorems for every libm: identical angles -> the sum keeps that angle with magnitude fadd; exactly opposite -> |diff| < 1e-10 gives zero magnitude at new_with_blade(blade a + blade b, 0), '
-              'otherwise the larger summand\'s angle is kept bit-for-bit; the opposite-test is symmetric so a+b and b+a take the same path. The general-case blade bounds and the grade-from-direction rule are decided by predicates (S3, partial).')
+              'otherwise the larger summand\'s angle is kept bit-for-bit; the opposite-test is symmetric so a+b and b+a take the same path. C14_general_history: on the general path the angle of the sum is canonical and carries at least blade a + blade b blades whenever the re-encoded total is finite and at most 2^42 (history is never lost). The upper bound (+4), the grade-from-direction rule and a+b / b+a blade equality are decided by predicates (S3, partial).')
 LEVEL_NOTE = ('Partial. Trusted: Coq kernel + vm_compute; 4 standard-library axioms; hand-written model validated bit-for-bit each run with the recorded libm table.')
